@@ -1186,6 +1186,11 @@ func (e *exh) callResult1(c *ssa.Call, idx int, ctx *Ctx, at *ssa.BasicBlock, de
 			}
 			rv := e.eval(r.Results[idx], sub, r.Instr.Block(), nd)
 			rv = e.refine(rv, r.Results[idx], append(realFacts(factsAt(r.Instr.Block())), flagFacts...), sub, r.Instr.Block())
+			// in a small plain helper also by the tests on the ways to the
+			// return (the arm of a type switch with several types per case)
+			if !isMethodOfExecutor(e.p, f) && len(f.Blocks) <= 40 && (rv.kind == "types" || rv.kind == "shapes") {
+				rv = e.refineAt(rv, r.Results[idx], r.Instr.Block(), sub)
+			}
 			for _, b := range setBool {
 				delete(e.assumeBool, b)
 			}
@@ -1330,6 +1335,9 @@ func (e *exh) errMustBeNonNil(v ssa.Value, ctx *Ctx, at *ssa.BasicBlock, depth i
 		// worth the walk only when some way in carries a conversion helper's error
 		worth := false
 		for _, ev := range x.Edges {
+			if e.definitelyNonNilErr(ev, 0) {
+				worth = true // an arm that assigns a constructed error (`err = targetErr(name)`)
+			}
 			if ex, ok := stripConvPlain(ev).(*ssa.Extract); ok {
 				if c, ok := ex.Tuple.(*ssa.Call); ok && !c.Call.IsInvoke() {
 					if sc := c.Call.StaticCallee(); sc != nil && inModule(sc) && sc.Blocks != nil && e.conversionHelper(sc, ex.Index) {
@@ -1420,7 +1428,7 @@ func (e *exh) errMustBeNonNil(v ssa.Value, ctx *Ctx, at *ssa.BasicBlock, depth i
 // that found nil an error which, under ctx, cannot be nil.
 func (e *exh) phiEdgeFeasible(x *ssa.Phi, i int, ctx *Ctx, depth int) bool {
 	pred := x.Block().Preds[i]
-	if !e.feasible(pred, ctx) || !e.edgeOK(pred, succIndex(pred, x.Block()), ctx) {
+	if !e.feasible(pred, ctx) || !e.feasibleQuick(pred, ctx) || !e.edgeOK(pred, succIndex(pred, x.Block()), ctx) {
 		return false
 	}
 	// (feasible answers "yes" while it is being computed for this very
